@@ -513,5 +513,50 @@ func runPartition(c *core.Ctx) []core.Obligation {
 		obs = append(obs, core.Ob("R-PARTITION", "Polygon.Invert:depth-shift", c.Pos(fn.Pos()), core.FuncName(fn), core.Violated,
 			fmt.Sprintf("expected one depth+1 and one depth-1 in Invert, found %d and %d", plus, minus)))
 	}
+	obs = append(obs, invertCasesExclusive(c, fn))
 	return obs
+}
+
+
+// invertCasesExclusive (after round-7 seed C13-r7m2, the `return` that ends the empty-polygon case of Polygon.Invert
+// dropped): Invert has two special cases that replace the whole receiver (empty -> full, full -> empty). They undo
+// each other, so no path may run both: once *p has been overwritten as a whole, no second whole-value store to *p is
+// reachable.
+func invertCasesExclusive(c *core.Ctx, fn *ssa.Function) core.Obligation {
+	const construct = "Polygon.Invert:special-cases-exclusive"
+	if len(fn.Params) == 0 {
+		return core.Ob("R-PARTITION", construct, "-", "", core.Violated, "unresolved anchor")
+	}
+	recv := fn.Params[0]
+	var stores []*ssa.Store
+	core.AllInstrs(fn, func(in ssa.Instruction) {
+		if st, ok := in.(*ssa.Store); ok && st.Addr == ssa.Value(recv) {
+			stores = append(stores, st)
+		}
+	})
+	if len(stores) < 2 {
+		return core.Ob("R-PARTITION", construct, c.Pos(fn.Pos()), core.FuncName(fn), core.Violated, fmt.Sprintf("unresolved anchor: %d whole-value stores to the receiver, 2 expected (empty -> full, full -> empty)", len(stores)))
+	}
+	for _, a := range stores {
+		for _, b := range stores {
+			if a == b {
+				continue
+			}
+			reach := false
+			if a.Block() == b.Block() {
+				reach = core.InstrBlockIndex(a) < core.InstrBlockIndex(b)
+			} else {
+				for _, s := range a.Block().Succs {
+					if core.ReachFrom(s)[b.Block()] {
+						reach = true
+					}
+				}
+			}
+			if reach {
+				return core.Ob("R-PARTITION", construct, c.Pos(b.Pos()), core.FuncName(fn), core.Violated,
+					"after the receiver has been replaced as a whole at "+c.Pos(a.Pos())+" the other special case at "+c.Pos(b.Pos())+" is still reachable: inverting the empty polygon makes it full and then, falling through, empty again - an odd number of inversions of a polygon without loops no longer gives the full polygon")
+			}
+		}
+	}
+	return core.Ob("R-PARTITION", construct, c.Pos(fn.Pos()), core.FuncName(fn), core.Discharged, fmt.Sprintf("%d whole-value replacements of the receiver, none reachable from another", len(stores)))
 }
